@@ -257,7 +257,25 @@ fn triple_workload(ctx: &Ctx, ci: usize, n: u8, distinct: &Distinct, direct_nont
     let mut done = 0u64;
     while done < total {
         let len = (total - done).min(1 << 16);
-        let tri: Vec<[u32; 3]> = (0..len).map(|_| [rng.below(maxc) as u32, rng.below(maxc) as u32, rng.below(maxc) as u32]).collect();
+        let mx = maxc as u32 - 1;
+        let tri: Vec<[u32; 3]> = (0..len)
+            .map(|i| {
+                let (a, b) = (rng.below(maxc) as u32, rng.below(maxc) as u32);
+                // every fourth triple relates the planes to each other (equal, complementary, neighbouring codes)
+                match if i % 4 == 0 { 1 + rng.below(9) } else { 0 } {
+                    1 => [a, a, b],
+                    2 => [a, b, a],
+                    3 => [b, a, a],
+                    4 => [a, a, a],
+                    5 => [a, mx - a, b],
+                    6 => [a, b, mx - b],
+                    7 => [a, (a + 1).min(mx), a.saturating_sub(1)],
+                    8 => [a, b, (b + 1).min(mx)],
+                    9 => [mx - a, a, a],
+                    _ => [a, b, rng.below(maxc) as u32],
+                }
+            })
+            .collect();
         for t in &tri {
             if nontriv(t) {
                 distinct.insert(hash_mix(ci as u64, (t[0] as u64) | ((t[1] as u64) << 16) | ((t[2] as u64) << 32)));
@@ -732,6 +750,8 @@ fn enc_inputs(rng: &mut Rng, m: MC, full: bool, n: u8, count: usize, every_k: bo
                     let g = rng.unit();
                     let s = 10f64.powf(-3.0 - 4.0 * rng.unit());
                     out.push([g as f32, (g + (rng.unit() - 0.5) * s) as f32, (g + (rng.unit() - 0.5) * s) as f32]);
+                } else if i % 16 == 12 {
+                    out.push(crate::gen::related_px(rng, 1.0));
                 } else {
                     out.push([rng.unit() as f32, rng.unit() as f32, rng.unit() as f32]);
                 }
